@@ -23,17 +23,19 @@ EXTENDS Naturals, Sequences, FiniteSets, TLC
 CONSTANTS MaxLen,       \* longest member tuple
           ExcKinds,     \* exception classes a member may reject with
           Suppressed,   \* set of classes the loop swallows; containing "ALL" = every Exception
-          Rotation      \* "none_first" | "last_first" | "none"
+          Rotation,     \* "none_first" | "last_first" | "none"
+          NoneAcceptsAll \* TRUE: marshalling NoneType with the accept-everything no-op routine (older revisions)
 
 \* A member is [none |-> BOOLEAN, out |-> "ok" | exception class]; for the None member the
 \* outcome is a function of the input (accepts exactly None) and `out` is ignored.
 Outcomes == {"ok"} \cup ExcKinds
 Member == [none : BOOLEAN, out : Outcomes]
 
-\* NoneTypeUnmarshaller accepts exactly None; on the marshal side the None member's routine is a
-\* pass-through whose outcome is whatever it is (free, like any other member).
+\* The None member's routine accepts exactly None, in both directions (NoneTypeUnmarshaller,
+\* NoneTypeMarshaller).  With NoneAcceptsAll the marshal side is the no-op routine of older revisions,
+\* which accepted every value.
 MemberOut(m, xn, d) ==
-  IF m.none /\ d = "unmarshal" THEN (IF xn THEN "ok" ELSE "ValueError") ELSE m.out
+  IF m.none /\ ~(d = "marshal" /\ NoneAcceptsAll) THEN (IF xn THEN "ok" ELSE "ValueError") ELSE m.out
 Outs(s, xn, d) == [j \in 1..Len(s) |-> MemberOut(s[j], xn, d)]
 
 HasNone(ms) == \E i \in 1..Len(ms) : ms[i].none
